@@ -25,7 +25,9 @@ RULE = ("kappa / overhead / probabilities of every documented family at special 
         "hand-made and gate bases (dyadic vectors, wrong lengths, in-place edits of the returned container followed by fresh constructions); "
         "random local conjugations (equal kappa); every row of the docs table evaluated against the code; histories spread over shallow / deep "
         "copies of one basis (every object alive checked against its own coefficients after every step); KAK-path gates (rzx, xx+-yy, open-"
-        "controlled rotations, local conjugations of rzz/rxx/ryy/crz/cp) 4e-9 .. 5e-8 rad from a locally trivial gate; distinct by payload")
+        "controlled rotations, local conjugations of rzz/rxx/ryy/crz/cp) 4e-9 .. 5e-8 rad from a locally trivial gate; "
+        "local conjugations handed over as matrix-only Gate objects other than UnitaryGate (user-defined subclasses with a fixed name), several "
+        "decomposed in one process; dyadic coefficient vectors times 2^-10 .. 2^-60 (invariants to relative accuracy); distinct by payload")
 ASSUMPTIONS = ["Qiskit maps rzx / xx+-yy to Weyl coordinates (theta/2,0,0) / (theta/4,theta/4,0) (checked numerically per case through the real basis)",
                "numpy float arithmetic on dyadic coefficient vectors is exact (kappa, overhead compared exactly; probabilities to 1e-12)"]
 TOL = 1e-9
@@ -122,10 +124,66 @@ def _hair_family():
             yield ("local", {"gate": name, "params": [k * period + d], "seeds": [1000 * j + 10 * i + t for t in range(4)], "always_oracle": True})
 
 
+# how a local conjugation (V1 x V2) G (V3 x V4) is handed over as a Gate object (see _carrier)
+CARRIERS = ("unitary", "array", "to_matrix", "array-params", "reused")
+
+
+def _carrier_family():
+    """Local conjugations of documented gates handed over as matrix-only Gate objects other than UnitaryGate (user-defined Gate subclasses
+    with one fixed name and no / equal numeric params), several of them decomposed one after the other in the same process: every one of
+    them has the documented kappa of its family, whatever was decomposed before."""
+    def e(name, params, base):
+        return {"gate": name, "params": params, "seeds": [base + t for t in range(4)]}
+    fam = [("array", [e("rzz", [0.3], 7000), e("swap", [], 7010)], e("cx", [], 7020)),
+           ("array", [e("rzz", [0.0], 7030)], e("cs", [], 7040)),
+           ("to_matrix", [e("cp", [1.57], 7050)], e("iswap", [], 7060)),
+           ("to_matrix", [e("dcx", [], 7070), e("cz", [], 7080)], e("crx", [-1.1], 7090)),
+           ("array-params", [e("rzz", [0.7], 7100)], e("crx", [0.7], 7110)),
+           ("array-params", [e("rxx", [2.5], 7120)], e("cp", [2.5], 7130)),
+           ("reused", [e("rzx", [1.1], 7140)], e("xx_plus_yy", [0.9, 0.4], 7150)),
+           ("reused", [e("ecr", [], 7160), e("ryy", [-0.4], 7170)], e("rzz", [0.3], 7180)),
+           ("unitary", [e("swap", [], 7190)], e("rzz", [7.0], 7200))]
+    for i, (carrier, before, main) in enumerate(fam):
+        # "name": the (fixed) name of the user-defined gate class of this case
+        yield ("local", dict(main, carrier=carrier, name=f"dressed{i}", before=before, always_oracle=True))
+
+
+def _scale_family():
+    """Coefficient vectors of small (and mixed) overall magnitude: dyadic vectors times 2^-k.  kappa, probabilities and overhead are
+    scale-free functions of the vector (float arithmetic stays exact on these)."""
+    F = Fraction
+    base = [([F(3), F(-4), F(0)], [[F(1), F(1), F(-5)]]),
+            ([F(5, 2), F(-5, 2), F(5, 4), F(1, 8)], [[F(7), F(-1), F(2), F(3)], [F(1, 2), F(0), F(0), F(-9, 4)]]),
+            ([F(1), F(-2)], [[F(33, 16), F(-13, 8)]])]
+    conts = ("list", "ndarray", "tuple")
+    i = 0
+    for k in (10, 20, 27, 33, 40, 43, 60):
+        sc = F(1, 2 ** k)
+        init, hist = base[i % 3]
+        yield ("setter", {"nmaps": len(init), "init": [frac(x * sc) for x in init], "hist": [[frac(x * sc) for x in h] for h in hist],
+                          "gate": None, "container": conts[i % 3], "always_oracle": True})
+        i += 1
+    # order-one, then small, then order-one again (and the reverse) on one object; entries of mixed magnitude in one vector
+    yield ("setter", {"nmaps": 3, "init": [frac(F(1, 2)), frac(F(-1, 4)), frac(F(1, 8))],
+                      "hist": [[frac(F(3, 2 ** 41)), frac(F(-4, 2 ** 41)), frac(F(0))], [frac(F(1)), frac(F(1)), frac(F(-1))],
+                               [frac(F(5, 2 ** 24)), frac(F(1, 2 ** 30)), frac(F(-3, 2 ** 36))]],
+                      "gate": None, "container": "list", "always_oracle": True})
+    yield ("setter", {"nmaps": 2, "init": [frac(F(7, 2 ** 35)), frac(F(-1, 2 ** 37))],
+                      "hist": [[frac(F(1, 4)), frac(F(-3, 4))], [frac(F(9, 2 ** 45)), frac(F(1, 2 ** 45))]],
+                      "gate": None, "container": "ndarray", "share": "behind", "always_oracle": True})
+    # the coefficients of a gate basis replaced by small ones (an attenuated quasi-probability vector)
+    for name, params, n, k in (("cx", [], 6, 30), ("rzz", [0.7], 6, 42), ("cs", [], 6, 18)):
+        hist = [[F((-1) ** j * (j + 1), 2 ** k) for j in range(n)]]
+        yield ("setter", {"nmaps": n, "init": None, "hist": [[frac(x) for x in h] for h in hist], "gate": name, "params": params,
+                          "always_oracle": True})
+
+
 def cases(rng, tier):
     reps = 4 if tier == "quick" else 40
     yield from _share_family()
     yield from _hair_family()
+    yield from _carrier_family()
+    yield from _scale_family()
     # sub-normalised coefficient vectors (1-norm below one): kappa is the 1-norm all the same, never clamped
     for init, hist in (([Fraction(1, 4), Fraction(-1, 8)], [[Fraction(1, 8), Fraction(1, 16)]]),
                        ([Fraction(1, 4)] * 3, [[Fraction(1, 2), Fraction(-1, 4), Fraction(1, 8)], [Fraction(1, 16)] * 3]),
@@ -226,15 +284,71 @@ def _basis(payload):
     return QPDBasis.from_instruction(c02._gate({"gate": payload["gate"], "params": payload.get("params", [])}))
 
 
+def _dressed(e):
+    """(V1 x V2) G (V3 x V4) for the gate named by e and Haar-random single-qubit unitaries from e["seeds"]"""
+    from qiskit.quantum_info import random_unitary
+    g = c02._gate(e)
+    s = e["seeds"]
+    L = np.kron(random_unitary(2, seed=s[0]).data, random_unitary(2, seed=s[1]).data)
+    R = np.kron(random_unitary(2, seed=s[2]).data, random_unitary(2, seed=s[3]).data)
+    return L @ g.to_matrix() @ R
+
+
+def _carrier(how, name="dressed"):
+    """wrap(matrix, entry) -> a two-qubit Gate object that is known through its matrix only (all of them take the KAK path):
+    unitary: UnitaryGate;  array: a user-defined Gate subclass (fixed name, no params) exposing the matrix through __array__;
+    to_matrix: such a subclass overriding to_matrix instead;  array-params: fixed name, params = the numeric params of the dressed gate;
+    reused: ONE object of the array kind whose stored matrix is replaced before every call."""
+    from qiskit.circuit import Gate
+    from qiskit.circuit.library import UnitaryGate
+    if how == "unitary":
+        return lambda mat, e: UnitaryGate(mat)
+
+    class ArrayGate(Gate):
+        def __init__(self, mat, params=()):
+            super().__init__(name, 2, list(params))
+            self._mat = np.array(mat, dtype=complex)
+
+        def __array__(self, dtype=None, copy=None):
+            return np.array(self._mat, dtype=dtype)
+
+    class MatrixGate(Gate):
+        def __init__(self, mat):
+            super().__init__(name, 2, [])
+            self._mat = np.array(mat, dtype=complex)
+
+        def to_matrix(self):
+            return np.array(self._mat, dtype=complex)
+
+    if how == "array":
+        return lambda mat, e: ArrayGate(mat)
+    if how == "to_matrix":
+        return lambda mat, e: MatrixGate(mat)
+    if how == "array-params":
+        return lambda mat, e: ArrayGate(mat, [float(x) for x in e.get("params", ())])
+    if how == "reused":
+        box = []
+
+        def wrap(mat, e):
+            if not box:
+                box.append(ArrayGate(mat))
+            box[0]._mat = np.array(mat, dtype=complex)
+            return box[0]
+        return wrap
+    raise ValueError(f"unknown carrier {how}")
+
+
 def _own_invariants(b):
     """the property's invariants of one basis object with respect to the coefficients it holds itself (None = they hold)"""
     c = [float(x) for x in b.coeffs]
     k = sum(abs(x) for x in c)
-    if abs(float(b.kappa) - k) > 1e-12 * max(1, k):
+    if abs(float(b.kappa) - k) > 1e-12 * max(1, k) or not abs(float(b.kappa) - k) <= 1e-12 * k:
         return f"coeffs {c} but kappa {float(b.kappa)} (1-norm {k})"
-    if abs(float(b.overhead) - k * k) > 1e-9 * max(1, k * k):
+    if abs(float(b.overhead) - k * k) > 1e-9 * max(1, k * k) or not abs(float(b.overhead) - k * k) <= 1e-9 * k * k:
         return f"coeffs {c} but overhead {float(b.overhead)} (kappa^2 = {k * k})"
     pr = [float(x) for x in b.probabilities]
+    if k > 0 and not abs(sum(pr) - 1) <= 1e-9:
+        return f"coeffs {c} but probabilities {pr} add up to {sum(pr)}"
     if len(pr) != len(c) or (k > 0 and any(abs(p_ - abs(x) / k) > 1e-12 for p_, x in zip(pr, c))):
         return f"coeffs {c} but probabilities {pr}, |c|/kappa = {[abs(x) / k for x in c] if k > 0 else None}"
     return None
@@ -312,16 +426,20 @@ def run_real(kind, payload):
         b2 = _basis(payload)
         return {"ok": _state(b2)}
     if kind == "local":
-        from qiskit.circuit.library import UnitaryGate
-        from qiskit.quantum_info import random_unitary
+        wrap = _carrier(payload.get("carrier", "unitary"), payload.get("name", "dressed"))
+        # gates decomposed earlier in the same process through the same kind of object (their kappa is recorded as well)
+        before = []
+        for e in payload.get("before", ()):
+            be = QPDBasis.from_instruction(wrap(_dressed(e), e))
+            before.append({"kappa": float(be.kappa), "inv": _own_invariants(be)})
         g = c02._gate(payload)
-        s = payload["seeds"]
-        L = np.kron(random_unitary(2, seed=s[0]).data, random_unitary(2, seed=s[1]).data)
-        R = np.kron(random_unitary(2, seed=s[2]).data, random_unitary(2, seed=s[3]).data)
         b = QPDBasis.from_instruction(g)
-        b2 = QPDBasis.from_instruction(UnitaryGate(L @ g.to_matrix() @ R))
+        b2 = QPDBasis.from_instruction(wrap(_dressed(payload), payload))
         st = _state(b)
         st["kappa_conj"] = float(b2.kappa)
+        if "carrier" in payload or "before" in payload:
+            st["conj_inv"] = _own_invariants(b2)
+            st["before"] = before
         return {"ok": st}
     g = _payload_gate(kind, payload)
     if g is None:
@@ -433,7 +551,15 @@ def oracle(kind, payload):
             if abs(s["overhead"] - float(k * k)) > 1e-9 * max(1, float(k * k)):
                 return f"step {i}: overhead {s['overhead']} is not kappa^2 = {float(k * k)}"
             if any(abs(p - float(abs(c) / k)) > 1e-12 for p, c in zip(s["probs"], cs)) or len(s["probs"]) != len(cs):
-                return f"step {i}: probabilities are not |c|/kappa"
+                return (f"step {i}: probabilities {s['probs']} are not |c|/kappa = {[float(abs(c) / k) for c in cs]} for the coefficients "
+                        f"{[float(c) for c in cs]} (kappa {s['kappa']!r}, 1-norm {float(k)!r})")
+            # the invariants are scale free: the same to relative accuracy for coefficient vectors of any magnitude
+            if not abs(s["kappa"] - float(k)) <= 1e-12 * float(k):
+                return f"step {i}: kappa {s['kappa']!r} is not the 1-norm {float(k)!r} of the coefficients {[float(c) for c in cs]}"
+            if not abs(s["overhead"] - float(k * k)) <= 1e-9 * float(k * k):
+                return f"step {i}: overhead {s['overhead']!r} is not kappa^2 = {float(k * k)!r} for the coefficients {[float(c) for c in cs]}"
+            if not abs(sum(s["probs"]) - 1) <= 1e-9:
+                return f"step {i}: probabilities {s['probs']} add up to {sum(s['probs'])!r} for the coefficients {[float(c) for c in cs]}"
         return None
     s = real["ok"]
     g = _payload_gate(kind, payload)
@@ -447,6 +573,34 @@ def oracle(kind, payload):
     k = sum(abs(c) for c in s["coeffs"])
     if any(abs(p - abs(c) / k) > 1e-12 for p, c in zip(s["probs"], s["coeffs"])):
         return "probabilities are not the normalised absolute coefficients"
+    if kind == "local" and ("carrier" in payload or "before" in payload):
+        nm = payload.get("name", "dressed")
+        how = {"unitary": "a UnitaryGate", "array": f"a user-defined Gate subclass (name '{nm}', no params, matrix through __array__)",
+               "to_matrix": f"a user-defined Gate subclass (name '{nm}', no params, to_matrix overridden)",
+               "array-params": f"a user-defined Gate subclass (name '{nm}', params = the angle(s), matrix through __array__)",
+               "reused": f"one user-defined Gate object (name '{nm}', matrix through __array__) whose stored matrix is replaced before each call"
+               }[payload.get("carrier", "unitary")]
+        hist = []
+        for e, r in zip(payload.get("before", ()), s.get("before", ())):
+            cfe = closed_form(e["gate"], e["params"])
+            what = f"(V1 x V2) {e['gate']}{e['params']} (V3 x V4) [Haar seeds {e['seeds']}]"
+            if cfe is not None and abs(r["kappa"] - cfe) > 1e-9:
+                return (f"{what} handed over as {how}" + (f", after {', '.join(hist)} in the same process" if hist else "")
+                        + f": kappa {r['kappa']}, documented closed form of the locally equivalent {e['gate']} is {cfe}")
+            if r["kappa"] < 1 - 1e-9:
+                return f"{what} handed over as {how}: kappa {r['kappa']} < 1"
+            if r.get("inv"):
+                return f"{what} handed over as {how}: {r['inv']}"
+            hist.append(what)
+        if abs(s["kappa"] - s["kappa_conj"]) > 1e-9:
+            return (f"(V1 x V2) {g['gate']}{g['params']} (V3 x V4) [Haar seeds {payload['seeds']}] handed over as {how}"
+                    + (f", after {', '.join(hist)} were decomposed in the same process" if hist else "")
+                    + f": kappa {s['kappa_conj']}, but the locally equivalent {g['gate']}{g['params']} has kappa {s['kappa']}"
+                    + (f" (documented closed form {cf})" if cf is not None else ""))
+        if s["kappa_conj"] < 1 - 1e-9:
+            return f"kappa {s['kappa_conj']} < 1 for a local conjugation of {g['gate']}{g['params']} handed over as {how}"
+        if s.get("conj_inv"):
+            return f"local conjugation of {g['gate']}{g['params']} handed over as {how}: {s['conj_inv']}"
     if kind == "local" and abs(s["kappa"] - s["kappa_conj"]) > 1e-9:
         return (f"kappa changes under local conjugation: {s['kappa']} for {g['gate']}{g['params']} vs {s['kappa_conj']} for "
                 f"(V1 x V2) G (V3 x V4) with Haar seeds {payload['seeds']}")
